@@ -143,6 +143,11 @@ class FcdWorld(au.CutWorld):
         r = rng if isinstance(rng, Adt) else deref_all(m, st, rng)
         kind = r.ty.rsplit("::", 1)[1]
         b = r.fields[0] if r.fields else None
+        if getattr(self, "single_pass", False):
+            # one pass over the whole input: the prefix is everything before the *current* character
+            if kind == "RangeTo" and isinstance(b, Sym) and b.name == ("boff", 0):
+                return Str(("prefix",))
+            raise DisciplineError("the copied prefix is s[..%s], not everything before the character that triggers the mapping" % (("(position of a character %d step(s) back)" % b.name[1]) if isinstance(b, Sym) and isinstance(b.name, tuple) and b.name[0] == "boff" else repr(b)))
         if not (isinstance(b, Sym) and b.name == ("pos",)):
             raise DisciplineError("slice bound %s is not the position returned by find: the copied prefix and the mapped suffix must meet exactly there" % (("pos%+d" % b.name[2]) if isinstance(b, Sym) and isinstance(b.name, tuple) and b.name[0] == "lin" else repr(b)))
         if kind == "RangeTo":
@@ -293,18 +298,130 @@ def analyse(prog, rep, rule, fn_key, world, args=None):
         rep.ob(rule, "prefix copied verbatim, suffix mapped, split at find's position", False, str(e), b.where(), key="%s|split" % rule)
         return None
     except AnalysisError as e:
+        if "designated input" in str(e):
+            # not find-then-rebuild: try the single-pass shape (one loop over the whole input, output allocated
+            # lazily at the first character that changes)
+            try:
+                return analyse_single_pass(prog, rep, rule, fn_key, world, args)
+            except ClassRefinement as e2:
+                rep.ob(rule, "depends only on the character classes", False, str(e2), b.where(), key="%s|trigger-or-map-finer-than-classes" % rule)
+                return None
+            except DisciplineError as e2:
+                rep.ob(rule, "prefix copied verbatim, suffix mapped, split at find's position", False, str(e2), b.where(), key="%s|split" % rule)
+                return None
+            except AnalysisError as e2:
+                rep.analysis_error(rule, fn_key, e2, b.where())
+                return None
         rep.analysis_error(rule, fn_key, e, b.where())
         return None
     return {"trig": set(world.trig or ()), "none_result": none_res, "none_events": none_events, "aut": aut, "body": b}
+
+
+def analyse_single_pass(prog, rep, rule, fn_key, world, args=None):
+    """The same function written as one pass: `for (pos, c) in s.char_indices()` with an output that is created —
+    as a copy of s[..pos] — at the first character that needs mapping, and returned instead of s when it exists.
+    The loop automaton over the whole input has (up to behavioural equivalence) two states: nothing copied yet
+    / output started. It denotes  w ↦ w  if no letter of w starts the output, else (letters before the first
+    such letter) ++ per-letter outputs — the denotation of find-then-rebuild with trigger set = the letters that
+    start the output. The result is handed to the caller in the same form as analyse()'s."""
+    b = prog.body(fn_key)
+    args = list(args or [Str(("input",))])
+    world.single_pass = True
+    world.input_tag = ("input",)
+    world.trig = set()
+    try:
+        aut = au.extract(prog, world, fn_key, args, world.alphabet, result_of=result_desc(prog))
+    finally:
+        world.single_pass = False
+        world.input_tag = ("suffix",)
+    t0 = aut.initial
+    if t0.target is None:
+        raise DisciplineError("the function returns before reading a character")
+    q0 = t0.target
+    if any(e[0] in ("push", "pop") for e in t0.events):
+        raise DisciplineError("output is produced before the first character is read")
+    tend0 = aut.delta[(q0, au.END)]
+    none_res = tend0.result
+    none_events = [e for e in tend0.events if e[0] == "push"]
+    # partition the states: `started` = states reached after an output-starting letter
+    trig = set()
+    started = set()
+    for a in world.alphabet:
+        t = aut.delta[(q0, a)]
+        ev = [e for e in t.events if e[0] in ("push", "pop")]
+        if t.target is None:
+            raise DisciplineError("the loop returns at a character of class %s" % a)
+        if ev:
+            trig.add(a)
+            started.add(t.target)
+        else:
+            # a letter that leaves everything as it is must leave the automaton where it was (up to equivalence)
+            if t.target != q0 and not _equivalent(aut, world.alphabet, t.target, q0):
+                raise DisciplineError("a character of class %s produces no output but changes what happens to later characters" % a)
+    world.trig = trig
+    if not started:
+        # nothing ever starts the output: the denotation is the identity; report through the normal channel
+        view = au.Automaton()
+        view.initial = au.Transition(None, (), q0, None)
+        view.delta = dict(aut.delta)
+        view.states = dict(aut.states)
+        return {"trig": trig, "none_result": none_res, "none_events": none_events, "aut": view, "body": b}
+    q1 = sorted(started)[0]
+    for q in started:
+        if q != q1 and not _equivalent(aut, world.alphabet, q, q1):
+            raise DisciplineError("what happens after the output has been started depends on which character started it")
+    # the output-starting letter's own output must be what that letter gets later on
+    for a in trig:
+        first = tuple(e for e in aut.delta[(q0, a)].events if e[0] in ("push", "pop"))
+        later = tuple(e for e in aut.delta[(q1, a)].events if e[0] in ("push", "pop"))
+        if first != later:
+            raise DisciplineError("a character of class %s is written as %s when it starts the output and as %s afterwards" % (a, list(first), list(later)))
+    view = au.Automaton()
+    view.initial = au.Transition(None, (), q1, None)
+    view.delta = {k: v for k, v in aut.delta.items()}
+    view.states = dict(aut.states)
+    return {"trig": trig, "none_result": none_res, "none_events": none_events, "aut": view, "body": b, "single_pass": True}
+
+
+def _equivalent(aut, alphabet, p, q):
+    """Behavioural equivalence of two states (same outputs/results for every word)."""
+    seen = set()
+    work = [(p, q)]
+    while work:
+        x, y = work.pop()
+        if x == y or (x, y) in seen:
+            continue
+        seen.add((x, y))
+        for a in list(alphabet) + [au.END]:
+            tx, ty = aut.delta.get((x, a)), aut.delta.get((y, a))
+            if tx is None or ty is None:
+                return False
+            if tuple(e for e in tx.events if e[0] in ("push", "pop")) != tuple(e for e in ty.events if e[0] in ("push", "pop")) or repr(tx.result) != repr(ty.result):
+                return False
+            if (tx.target is None) != (ty.target is None):
+                return False
+            if tx.target is not None:
+                work.append((tx.target, ty.target))
+    return True
 
 
 def behavioural_states(aut, alphabet):
     """Number of states of the loop automaton up to behavioural equivalence (same outputs and results for every
     letter and at the end, successors equivalent): bookkeeping that the outputs do not depend on — a buffer
     that is empty until the first push, a flag set once — does not count as state."""
-    states = sorted({t.target for t in list(aut.delta.values()) + [aut.initial] if t.target is not None})
-    if not states:
+    if aut.initial.target is None:
         return 0
+    reach, work = set(), [aut.initial.target]
+    while work:
+        q = work.pop()
+        if q in reach:
+            continue
+        reach.add(q)
+        for a in list(alphabet) + [au.END]:
+            t = aut.delta.get((q, a))
+            if t is not None and t.target is not None:
+                work.append(t.target)
+    states = sorted(reach)
     cls = {q: 0 for q in states}
     for _ in range(len(states) + 1):
         sig = {}
@@ -335,7 +452,17 @@ def letter_outputs(aut, alphabet):
     if t0.target is None:
         raise AnalysisError("the mapping loop returns before reading a character")
     q0 = t0.target
-    eq = EquivStates({t.target for t in list(aut.delta.values()) + [aut.initial] if t.target is not None}) if behavioural_states(aut, alphabet) == 1 else q0
+    reach, work = set(), [q0]
+    while work:
+        q = work.pop()
+        if q in reach:
+            continue
+        reach.add(q)
+        for a in list(alphabet) + [au.END]:
+            t = aut.delta.get((q, a))
+            if t is not None and t.target is not None:
+                work.append(t.target)
+    eq = EquivStates(reach) if behavioural_states(aut, alphabet) == 1 else q0
     for a in alphabet:
         t = aut.delta[(q0, a)]
         per[a] = (tuple(e for e in t.events if e[0] in ("push", "pop")), eq if (isinstance(eq, EquivStates) and t.target in eq.states) else t.target, t.result)
